@@ -418,9 +418,11 @@ def peephole_tie(ctx):
     ctx.corr["peephole_corpus_items"] = sum(len(a) for _n, a in corpus)
     # observation / Search: stack programs with every window, with and without optimize_assembly, on the EVM
     from vlib.evm import Chain
+    found_here = False
     if set_diff:
         probe = c15_asm.opcode_set_probe(Chain("cancun"), set_diff.get("ret01", []))
         if probe is not None:
+            found_here = True
             failing(ctx, "an opcode that does not return 0/1 is treated as such: X ISZERO ISZERO collapses to X", probe,
                     key="asmopt:ret01:" + probe["opcode"])
         else:
@@ -430,7 +432,7 @@ def peephole_tie(ctx):
     ctx.corr["peephole_evm_programs"] = npat
     if diff is not None:
         failing(ctx, "optimize_assembly changes the result of a stack program", diff, key="asmopt:" + diff["assembly"][-60:])
-    elif bad is not None:
+    elif bad is not None and not found_here:
         ctx.violation("correspondence-broken", "Peephole model != real assembly optimiser pass (exact output)", bad)
     return len(exprs) + npat
 
